@@ -211,7 +211,7 @@ func entriesOf(a *fasthttp.Args) string {
 	var it []string
 	i := 0
 	for k, v := range a.All() {
-		it = append(it, hlib.Tuple(hlib.Hex(k), hlib.Hex(v), hlib.Bool(nov[i])))
+		it = append(it, hlib.Tuple(lit(k), lit(v), hlib.Bool(nov[i])))
 		i++
 	}
 	if i != len(nov) {
@@ -234,14 +234,14 @@ func apply(a *fasthttp.Args, o opd) string {
 		default:
 			a.AddBytesKV(k, v)
 		}
-		return hlib.App("OAdd", hlib.Hex(k), hlib.Hex(v))
+		return hlib.App("OAdd", lit(k), lit(v))
 	case "addnv":
 		if o.Via%2 == 0 {
 			a.AddNoValue(string(k))
 		} else {
 			a.AddBytesKNoValue(k)
 		}
-		return hlib.App("OAddNoValue", hlib.Hex(k))
+		return hlib.App("OAddNoValue", lit(k))
 	case "set":
 		switch o.Via {
 		case 0:
@@ -253,21 +253,21 @@ func apply(a *fasthttp.Args, o opd) string {
 		default:
 			a.SetBytesKV(k, v)
 		}
-		return hlib.App("OSet", hlib.Hex(k), hlib.Hex(v))
+		return hlib.App("OSet", lit(k), lit(v))
 	case "setnv":
 		if o.Via%2 == 0 {
 			a.SetNoValue(string(k))
 		} else {
 			a.SetBytesKNoValue(k)
 		}
-		return hlib.App("OSetNoValue", hlib.Hex(k))
+		return hlib.App("OSetNoValue", lit(k))
 	case "del":
 		if o.Via%2 == 0 {
 			a.Del(string(k))
 		} else {
 			a.DelBytes(k)
 		}
-		return hlib.App("ODel", hlib.Hex(k))
+		return hlib.App("ODel", lit(k))
 	case "reset":
 		a.Reset()
 		return "OReset"
@@ -277,48 +277,47 @@ func apply(a *fasthttp.Args, o opd) string {
 		} else {
 			a.Parse(string(v))
 		}
-		return hlib.App("OParse", hlib.Hex(v))
+		return hlib.App("OParse", lit(v))
 	}
 	panic("bad op " + o.Op)
 }
 
-// pack concatenates <len-hi><len-lo><bytes> for every item (see Check/C28Check.v unpack).
-func pack(items [][]byte) []byte {
-	var out []byte
-	for _, it := range items {
-		if len(it) > 65535 {
-			panic("item too long to pack")
+// lit writes a byte string as a Coq term: printable ASCII as (s2b "...") (one character per byte), anything
+// else as (h "hex").  Coq's cost per string-literal character dominates the evaluation time of a shard.
+func lit(b []byte) string {
+	for _, c := range b {
+		if c < 0x20 || c > 0x7e || c == '"' {
+			return hlib.Hex(b)
 		}
-		out = append(out, byte(len(it)>>8), byte(len(it)))
-		out = append(out, it...)
 	}
-	return out
+	return `(s2b "` + string(b) + `")`
 }
 
-func b01(f bool) byte {
-	if f {
-		return 1
+func litList(bs [][]byte) string {
+	it := make([]string, len(bs))
+	for i, b := range bs {
+		it[i] = lit(b)
 	}
-	return 0
+	return hlib.List(it)
 }
 
-func packedEntries(a *fasthttp.Args) (kv, nov []byte) {
-	var items [][]byte
-	for k, v := range a.All() {
-		items = append(items, append([]byte{}, k...), append([]byte{}, v...))
+func optBytes(b []byte) string {
+	if b == nil {
+		return hlib.None()
 	}
-	flags := fasthttp.VerifArgsNoValue(a)
-	if 2*len(flags) != len(items) {
-		panic("All() and noValue flags disagree in length")
-	}
-	for _, f := range flags {
-		nov = append(nov, b01(f))
-	}
-	return pack(items), nov
+	return hlib.Some(lit(b))
 }
 
 func observe(a, b *fasthttp.Args, probe []hlib.B, via int) string {
-	allkv, nov := packedEntries(a)
+	var all []string
+	for k, v := range a.All() {
+		all = append(all, hlib.Tuple(lit(k), lit(v)))
+	}
+	nov := fasthttp.VerifArgsNoValue(a)
+	novs := make([]string, len(nov))
+	for i, f := range nov {
+		novs[i] = hlib.Bool(f)
+	}
 	var qs []byte
 	switch via % 3 {
 	case 0:
@@ -328,7 +327,7 @@ func observe(a, b *fasthttp.Args, probe []hlib.B, via int) string {
 	default:
 		qs = a.AppendBytes(nil)
 	}
-	var pr [][]byte
+	var pr []string
 	for _, k := range probe {
 		var pk []byte
 		var pm [][]byte
@@ -338,18 +337,11 @@ func observe(a, b *fasthttp.Args, probe []hlib.B, via int) string {
 		} else {
 			pk, pm, has = a.PeekBytes(k), a.PeekMultiBytes(k), a.HasBytes(k)
 		}
-		if len(pm) > 255 {
-			panic("too many values to pack")
-		}
-		pr = append(pr, []byte{b01(pk == nil), b01(has), byte(len(pm))}, append([]byte{}, pk...))
-		for _, v := range pm {
-			pr = append(pr, append([]byte{}, v...))
-		}
+		pr = append(pr, hlib.Tuple(optBytes(pk), litList(pm), hlib.Bool(has)))
 	}
 	// round trip into a second, long-lived Args (so that its slots are reused with stale contents)
 	b.ParseBytes(append([]byte{}, qs...))
-	rtkv, rtnov := packedEntries(b)
-	return hlib.App("PObs", hlib.Z(int64(a.Len())), hlib.Hex(allkv), hlib.Hex(nov), hlib.Hex(qs), hlib.Hex(pack(pr)), hlib.Hex(rtkv), hlib.Hex(rtnov))
+	return hlib.App("Obs", hlib.Z(int64(a.Len())), hlib.List(all), hlib.List(novs), lit(qs), hlib.List(pr), entriesOf(b))
 }
 
 func run(d desc) hlib.Case {
@@ -370,11 +362,11 @@ func run(d desc) hlib.Case {
 			sig.WriteString(o.Op[:1] + o.Op[len(o.Op)-1:] + strconv.Itoa(before))
 			size += len(o.K) + len(o.V)
 		}
-		pk := make([][]byte, len(d.Probe))
+		pk := make([]string, len(d.Probe))
 		for i, k := range d.Probe {
-			pk[i] = k
+			pk[i] = lit(k)
 		}
-		c.Coq = hlib.App("CSeqP", hlib.Hex(pack(pk)), hlib.List(steps))
+		c.Coq = hlib.App("CSeq", hlib.List(pk), hlib.List(steps))
 		c.Sig = "seq:" + sig.String()
 		c.Size = size
 		c.Kind = "seq-len" + strconv.Itoa((len(d.Ops)+9)/10*10)
@@ -384,7 +376,7 @@ func run(d desc) hlib.Case {
 		parsed := entriesOf(a)
 		qs := append([]byte{}, a.QueryString()...)
 		b.ParseBytes(append([]byte{}, qs...))
-		c.Coq = hlib.App("CRaw", hlib.Hex(d.Raw), parsed, hlib.Hex(qs), entriesOf(b))
+		c.Coq = hlib.App("CRaw", lit(d.Raw), parsed, lit(qs), entriesOf(b))
 		c.Size = len(d.Raw)
 		same := "changed"
 		if bytes.Equal(qs, d.Raw) {
